@@ -533,6 +533,109 @@ pub fn emit_stress(out: &mut Out, p: &StressPlan) {
     out.case(&case, &imp, nontrivial);
 }
 
+// ------------------------------------------------------------------------------------------ the global recorder
+
+/// The process-wide metrics.rs recorder for queues built with `metrics_recorder_global`: counters are told apart by
+/// their `sink` label; an overflow increment is put into the event log of the queue the label names.
+#[derive(Default)]
+struct GlobalRec {
+    sinks: Mutex<HashMap<String, (Log, Arc<AtomicU64>)>>,
+}
+struct GlobalCounter {
+    overflow: bool,
+    target: Option<(Log, Arc<AtomicU64>)>,
+}
+impl metrics::CounterFn for GlobalCounter {
+    fn increment(&self, value: u64) {
+        if let (true, Some((log, n))) = (self.overflow, &self.target) {
+            n.fetch_add(value, Ordering::SeqCst);
+            let mut l = log.lock().unwrap();
+            for _ in 0..value {
+                l.push(Ev::Over);
+            }
+        }
+    }
+    fn absolute(&self, _value: u64) {}
+}
+impl metrics::Recorder for &'static GlobalRec {
+    fn describe_counter(&self, _: metrics::KeyName, _: Option<metrics::Unit>, _: metrics::SharedString) {}
+    fn describe_gauge(&self, _: metrics::KeyName, _: Option<metrics::Unit>, _: metrics::SharedString) {}
+    fn describe_histogram(&self, _: metrics::KeyName, _: Option<metrics::Unit>, _: metrics::SharedString) {}
+    fn register_counter(&self, key: &metrics::Key, _: &metrics::Metadata<'_>) -> metrics::Counter {
+        let sink = key.labels().find(|l| l.key() == "sink").map(|l| l.value().to_string()).unwrap_or_default();
+        let target = self.sinks.lock().unwrap().get(&sink).cloned();
+        metrics::Counter::from_arc(Arc::new(GlobalCounter { overflow: key.name() == "metrique_queue_overflows", target }))
+    }
+    fn register_gauge(&self, _: &metrics::Key, _: &metrics::Metadata<'_>) -> metrics::Gauge {
+        metrics::Gauge::noop()
+    }
+    fn register_histogram(&self, _: &metrics::Key, _: &metrics::Metadata<'_>) -> metrics::Histogram {
+        metrics::Histogram::noop()
+    }
+}
+fn global_rec() -> Option<&'static GlobalRec> {
+    static REC: std::sync::OnceLock<Option<&'static GlobalRec>> = std::sync::OnceLock::new();
+    *REC.get_or_init(|| {
+        let r: &'static GlobalRec = Box::leak(Box::new(GlobalRec::default()));
+        metrics::set_global_recorder(r).ok().map(|_| r)
+    })
+}
+
+/// Two queues with different names, both reporting through the GLOBAL metrics.rs recorder, their writers held; one
+/// thread appends to both in turn beyond their capacities.  Each queue is then judged like a stalled single-producer
+/// stress run of its own: its overflow increments (found by the `sink` label) must be its own displacements.
+pub fn emit_two_queues_global(out: &mut Out, caps: (usize, usize), ns: (usize, usize), run: u64) {
+    static SEQ: AtomicU64 = AtomicU64::new(0);
+    let Some(rec) = global_rec() else {
+        out.count("global_recorder_unavailable");
+        return;
+    };
+    attach(false);
+    let mk = |cap: usize, n: usize, which: &str| {
+        let name = format!("q{which}-{run}-{}", SEQ.fetch_add(1, Ordering::SeqCst));
+        let log: Log = Arc::new(Mutex::new(vec![]));
+        let count = Arc::new(AtomicU64::new(0));
+        rec.sinks.lock().unwrap().insert(name.clone(), (log.clone(), count.clone()));
+        let gate = Arc::new(Gate::default());
+        gate.close();
+        let stream = RecStream { log: log.clone(), script: Script::default(), gate: Some(gate.clone()), flush_calls: 0, before_call: None };
+        let (q, join) = BackgroundQueueBuilder::new()
+            .capacity(cap)
+            .metric_name(name)
+            .flush_interval(Duration::from_millis(5))
+            .metrics_recorder_global::<dyn metrics::Recorder>()
+            .build::<Ent>(stream);
+        let plan = StressPlan { cap, kind: 0, threads: 1, per_thread: n, stall: true, flush_every: 0, interval_us: 5000, val_every: 0, seed: 0 };
+        (q, join, log, count, gate, plan)
+    };
+    let a = mk(caps.0, ns.0, "a");
+    let b = mk(caps.1, ns.1, "b");
+    let dropped = Arc::new(AtomicU64::new(0));
+    // one appender thread, the two queues in turn
+    for i in 0..ns.0.max(ns.1) as u64 {
+        if (i as usize) < ns.0 {
+            a.0.append(Ent { thread: 1, seq: i, dropped: Some(dropped.clone()) });
+        }
+        if (i as usize) < ns.1 {
+            b.0.append(Ent { thread: 1, seq: i, dropped: Some(dropped.clone()) });
+        }
+    }
+    for (q, join, log, count, gate, plan) in [a, b] {
+        gate.open();
+        drop(q);
+        drop(join);
+        let events = log.lock().unwrap().clone();
+        let imp = Sx::L(vec![Sx::L(events.iter().map(|e| e.sx()).collect()), Sx::L(vec![]), sx::n(count.load(Ordering::SeqCst))]);
+        let delivered = events.iter().filter(|e| matches!(e, Ev::Next(..))).count() as u64;
+        let overs = events.iter().filter(|e| matches!(e, Ev::Over)).count() as u64;
+        if delivered + overs != plan.per_thread as u64 {
+            out.fail(format!("two queues on the global recorder: {} appended, {} delivered, but {} overflow increments reported under this queue's name", plan.per_thread, delivered, overs), &plan.sx());
+        }
+        out.count("two_queues_global_recorder");
+        out.case(&plan.sx(), &imp, true);
+    }
+}
+
 /// Systematic exploration of a small plan: every schedule with at most `bound` preemptions (a preemption =
 /// taking the processor away from a thread that could continue), depth first, up to `budget` schedules.
 pub fn explore(out: &mut Out, plan: &Plan, bound: usize, budget: usize, rng: &mut Rng) -> usize {
@@ -698,6 +801,14 @@ pub fn run_family_with(ctx: &Ctx, focus: Focus, rule: &str, between: &mut dyn Fn
         for _ in 0..n_stress / 2 {
             let p = gen_stress(&mut rng, focus, ctx.tier_thorough);
             emit_stress(&mut u, &p);
+        }
+        // two queues reporting through the process-wide recorder, filled by one thread
+        if focus == Focus::Overflow {
+            for k in 0..(if ctx.tier_thorough { 12 } else { 4 }) {
+                let caps = (*rng.pick(&[1usize, 2, 4, 7]), *rng.pick(&[1usize, 3, 5, 16]));
+                let ns = (caps.0 + 3 + rng.below(20) as usize, caps.1 + 2 + rng.below(30) as usize);
+                emit_two_queues_global(&mut u, caps, ns, k);
+            }
         }
         // a backlog of thousands of entries behind a held writer, then one flush request (the drain passes are long)
         if focus == Focus::Flush {
